@@ -86,6 +86,8 @@ class StrEval:
             return self.hole(n)
         if k == "construct" and n.get("class") in ("QString", "QLatin1String", "QByteArray") and len(n.get("args", [])) == 1:
             return self.val(n["args"][0], env)
+        if k == "construct" and n.get("class") in ("QString", "QLatin1String", "QByteArray") and not [a for a in n.get("args", []) if a.get("k") != "defaultarg"]:
+            return [[("c", "")]]          # QString(): the empty text
         if k == "binop" and n.get("op") == "+":
             a, b = self.val(n.get("lhs"), env) or self.hole(n.get("lhs")), self.val(n.get("rhs"), env) or self.hole(n.get("rhs"))
             return [x + y for x in a for y in b][:MAX_ALT]
